@@ -14,10 +14,10 @@ Scaled == Kinds \ {"txt", "ans"}
 ScaleCs == {"default", "two", "zero", "negative", "half", "one_and_half"}
 BorderCs == {"default", "zero", "three", "negative", "fraction"}
 ColourCs == {"default", "name", "hex3", "hex6", "tuple", "hex2", "hex5", "hex_bad_digit", "unknown_name", "tuple2", "tuple_256", "tuple_negative",
-             "alpha_2", "empty", "hex_sign", "hex_space", "hex_minus", "hex_underscore", "hex_0x"}
+             "alpha_2", "empty", "hex_sign", "hex_space", "hex_minus", "hex_underscore", "hex_0x", "tuple5", "tuple6", "tuple0", "tuple1", "alpha_256", "alpha_neg"}
 KindCs == {"known", "known_upper", "unknown", "empty"}
 MalformedColour == {"hex2", "hex5", "hex_bad_digit", "unknown_name", "tuple2", "tuple_256", "tuple_negative", "alpha_2", "empty",
-                    "hex_sign", "hex_space", "hex_minus", "hex_underscore", "hex_0x"}
+                    "hex_sign", "hex_space", "hex_minus", "hex_underscore", "hex_0x", "tuple5", "tuple6", "tuple0", "tuple1", "alpha_256", "alpha_neg"}
 
 VARIABLES pc, a, refusals
 vars == <<pc, a, refusals>>
